@@ -2,6 +2,7 @@
   C11 — the generated Prometheus config keeps everything except where targets come from.
 -/
 import Kvass.Pins.Inject
+import Kvass.Pins.Cfg
 import Kvass.Model.Inject
 import Kvass.Proofs.AL
 
